@@ -68,6 +68,17 @@ CLAIMS.update({
          "3.9, 4 (C29)"),
 })
 
+CLAIMS.update({
+ "C12": ("SSA dominance/affine-form rules on every generated Lexer and the hand-written lexer actions",
+         "Decides forced progress on the no-match path, bounds guards on every source read and cursor advance, and the agreement of every line/lineOffset update with 'offset of the first byte of the current line' including both directions of rewind. Necessary conditions of progress, in-range tokens and correct line/column; tiling is not decided.",
+         "Lexer invariant scanOffset = offset + width(ch) (established by the same advance code the rule inspects).",
+         "3.9, 4 (C12)"),
+ "C11": ("unit/multiplier agreement between generator-side and lexer-side keyword hashing; plus the C12/C09 lexer rules",
+         "Decides that keyword recognition hashes the same units with the same multiplier on both sides (rune mode; the bytes-mode disagreement is a recorded known finding), and the position/line/column and table-codec conditions shared with C12 and C09. Necessary conditions only.",
+         "Template branches for scanBytes and large Unicode maps are not instantiated by shipped lexers.",
+         "3.9, 4 (C11)"),
+})
+
 NA = {
 }
 
